@@ -9,7 +9,7 @@ var c10ids = []string{"parse-xor", "validates", "shape", "render-xor", "param-er
 func withOnlyFree(rs []hrun, only []string) []hrun {
 	out := withOnly(rs, only, false)
 	for i := range out {
-		out[i].FreeOthers = true
+		out[i].FreeOthers = out[i].Seconds == 0 // the time-capped run keeps the old treatment until a full pass with the new one has been measured
 	}
 	return out
 }
